@@ -205,6 +205,9 @@ def bad_key(part, rec):
         k = {"part": "dnf", "kind": rec.get("kind"), "why": rec.get("why"), "ev": rec.get("ev")}
         if rec.get("kind") in ("construct", "other"):
             k["cancel_rule"] = bool(rec.get("cancel_rule"))
+        if rec.get("kind") in ("implies", "equal") and rec.get("why") == "says-no-truth-table-says-yes":
+            # the recorded incompleteness is that of the pinned algorithm on the DNFs the pinned constructors build
+            k["as_pinned"] = bool(rec.get("as_pinned"))
         return k
     k = {"part": "containers", "ev": rec.get("ev"), "why": rec.get("why"), "info": rec.get("info", "")}
     if rec.get("taint"):
